@@ -14,9 +14,9 @@ import (
 func init() {
 	Register(&PropDef{
 		ID: "C01", QuickRuns: 4800, Level: "exploration",
-		Rule: "one run = an association/session history of 1-2 peers into which 3-25 hostile datagrams are injected (random bytes; truncations; every message type the dispatcher handles and unsupported ones with 1-3 IE-level mutations: drop / duplicate / empty / retype / truncate / garble / IPv6-only address forms / corrupted flow descriptions; in states: first datagram on the listening socket, before/after association, with sessions, unknown SEID, after release). In one run in four the agent itself opens the association towards the victim (cpiface.peers) and every transmission of its Association Setup Request is answered with a valid, rejected, truncated or IE-mutated response carrying the right sequence number. With heartbeats enabled (intervals 15 ms / 40 ms / 5 s) the victim may sit on the agent's Heartbeat Requests and answer them late, and repeats its Association Setup on the live association, so that responses meet requests the agent has meanwhile abandoned; its PFCP port may be closed for a moment while the agent answers it (ICMP port unreachable, ECONNREFUSED on the agent's next read). One run in 48 is a long valid history instead: one failed write to the end-marker socket followed by more than a thousand hand-overs with end markers over two associations, every one of which must be answered. Monitors: any panic or Fatal of an agent task (attributed to the innermost repo frame); a valid Heartbeat Request sent afterwards on the same and on another association must be answered; at most one response-type datagram per injected datagram. Non-trivial = at least one accepted session operation or association plus at least one hostile datagram; distinct = different sequence of (state, message type, mutation kinds).",
+		Rule:   "one run = an association/session history of 1-2 peers into which 3-25 hostile datagrams are injected (random bytes; truncations; every message type the dispatcher handles and unsupported ones with 1-3 IE-level mutations: drop / duplicate / empty / retype / truncate / garble / IPv6-only address forms / corrupted flow descriptions; in states: first datagram on the listening socket, before/after association, with sessions, unknown SEID, after release). In one run in four the agent itself opens the association towards the victim (cpiface.peers) and every transmission of its Association Setup Request is answered with a valid, rejected, truncated or IE-mutated response carrying the right sequence number. With heartbeats enabled (intervals 15 ms / 40 ms / 5 s) the victim may sit on the agent's Heartbeat Requests and answer them late, and repeats its Association Setup on the live association, so that responses meet requests the agent has meanwhile abandoned; its PFCP port may be closed for a moment while the agent answers it (ICMP port unreachable, ECONNREFUSED on the agent's next read). One run in 48 is a long valid history instead: one failed write to the end-marker socket followed by more than a thousand hand-overs with end markers over two associations, every one of which must be answered. Monitors: any panic or Fatal of an agent task (attributed to the innermost repo frame); a valid Heartbeat Request sent afterwards on the same and on another association must be answered; at most one response-type datagram per injected datagram. Non-trivial = at least one accepted session operation or association plus at least one hostile datagram; distinct = different sequence of (state, message type, mutation kinds).",
 		Assume: []string{"hostile generators are built on an independent TLV codec; 'answered' means within 5 virtual seconds after the agent is quiescent"},
-		Real: CommonReal, Simulated: CommonSim,
+		Real:   CommonReal, Simulated: CommonSim,
 		Scenario: scenarioC01,
 	})
 }
@@ -529,7 +529,6 @@ func skelOf(name string) string {
 	}
 	return out
 }
-
 
 // scenarioC01LongHistory: nothing hostile in the payload, a fault outside it: one
 // write to the end-marker socket fails (the datapath's end is not reading for a
